@@ -1,13 +1,17 @@
 """C14 - queue family check (see lib/queuefam.py) + the Admin API / MCP request layer (lib/c14admin.py)
++ the MCP tools in Admin-proxy mode behind a fault-injecting forwarder (lib/c14proxy.py)
 + the allowed-state sets of the operator mutations tied to the Go sources by translation (lib/c02trans.py)."""
-from lib import c02trans, c14admin, queuefam
+from lib import c02trans, c14admin, c14proxy, queuefam
 
 
 def _extra(ctx, info, rng, fam, hs):
+    # the proxy layer runs in the background (two of its calls wait for the MCP server's 5 s Admin timeout)
+    px = c14proxy.start(ctx, info)
     cov = c14admin.run(ctx, info, rng, fam, hs) or {}
     cov.update(c02trans.run_manage_only(ctx, info, rng, fam, hs) or {})
+    cov.update(c14proxy.finish(px) or {})
     return cov
 
 
 def main(ctx, replay):
-    return queuefam.run_property(ctx, "C14", 150, 3000, extra=_extra, extra_prop_files=("C14admin", "C02trans"))
+    return queuefam.run_property(ctx, "C14", 150, 3000, extra=_extra, extra_prop_files=("C14admin", "C14proxy", "C02trans"))
